@@ -1,12 +1,133 @@
 import Driver.Util
-/- Line-protocol handler for the `hkdf` model (stub until the model exists). -/
+import Munge.Model.Hkdf
+/- Line-protocol handler for the `hkdf` model (C20): HKDF over the toy MAC, mungekey's `--bits`
+   arithmetic and `create_key` on a one-name file system, `create_subkeys` over the toy digest. -/
 namespace Driver.Hkdf
+open Munge Munge.Hkdf Munge.Gen.Hkdf
 
 structure St where
   dummy : Unit := ()
 
 def init : St := {}
 
-def step (st : St) (_args : List String) : St × String := (st, "bad-op")
+/-- "N" = not set, "-" = empty, else hex -/
+def optHex (s : String) : Option (Option (List UInt8)) :=
+  if s == "N" then some none else (Hex.ofHex s).map some
+
+def octal (n : Nat) : String :=
+  let s := String.ofList (Nat.toDigits 8 n)
+  String.ofList (List.replicate (4 - s.length) '0') ++ s
+
+def parseOctal (s : String) : Option Nat :=
+  s.toList.foldl (fun acc c => match acc with
+    | none => none
+    | some a => if '0' ≤ c ∧ c ≤ '7' then some (a * 8 + (c.toNat - 48)) else none) (some 0)
+
+/-- `hkdf toy <md> <salt|N> <ikm> <info|N> <L>` -/
+def doToy (md : Nat) (salt : Option (List UInt8)) (ikm info : List UInt8) (L : Nat) : String :=
+  let okm := Hkdf.run (Toy.mac md) md salt ikm info L
+  s!"rc=0 n={okm.length} okm={Hex.showHex okm}"
+
+/-- the 256 bytes the harness' `entropy_read` stub delivers for a seed -/
+def ikmOfSeed (seed : Nat) (n : Nat) : List UInt8 := Toy.squeeze (UInt64.ofNat seed) n
+
+/-- `hkdf bits <l|->` -/
+def doBits (b : Option Int) : String :=
+  match Mungekey.keyNumBytes b with
+  | none => "refused"
+  | some n => s!"bytes={n}"
+
+/-- `hkdf mk <force> <umask> <pre> <bits|-> <seed> <salt>`; pre = `none` or `<mode>:<hex>` -/
+def doMk (bin : Bool) (force : Bool) (umask : Nat) (pre : Option Mungekey.File) (bits : Option Int) (seed : Nat) (salt : List UInt8) : String :=
+  let fs0 : Mungekey.FS := fun p => if p = "key" then pre else none
+  let show_ (ok : Bool) (fs : Mungekey.FS) : String :=
+    match fs "key" with
+    | none => s!"ok={if ok then 1 else 0} exists=0"
+    | some f =>
+      let tail := if bin then s!"same={if (pre.map (·.content)) = some f.content then 1 else 0}" else s!"content={Hex.showHex f.content}"
+      s!"ok={if ok then 1 else 0} exists=1 size={f.content.length} mode={octal f.mode} {tail}"
+  match Mungekey.keyNumBytes bits with
+  | none => show_ false fs0
+  | some n =>
+    let md := DEFAULT_MAC.toNat
+    let secret := Mungekey.keySecret (Toy.mac md) md (ikmOfSeed seed ikmLen) salt (secretLen n)
+    let (fs, ok) := Mungekey.createKey fs0 "key" force umask n secret
+    show_ ok fs
+
+/-- read script: comma separated `d<hex>` data, `i` EINTR, `e<errno>` failure, `z` end of file -/
+def parseEv (s : String) : Option Subkeys.ReadEv :=
+  match s.toList with
+  | 'd' :: rest => (Hex.ofHex (String.ofList rest)).map fun b => { n := b.length, errno := 0, data := b }
+  | ['i'] => some { n := -1, errno := EINTR, data := [] }
+  | ['z'] => some { n := 0, errno := 0, data := [] }
+  | 'e' :: rest => (String.ofList rest).toInt?.map fun e => { n := -1, errno := e, data := [] }
+  | _ => none
+
+def showSub (tag : String) (r : Option (List (String × List UInt8))) : String :=
+  match r with
+  | none => tag ++ "refused"
+  | some outs =>
+    -- canonical order (the harness prints conf->dek_key, then conf->mac_key)
+    let get (k : String) : String := match outs.lookup k with
+      | some v => Hex.showHex v
+      | none => "unset"
+    s!"{tag}dek_key={get "dek_key"} {tag}mac_key={get "mac_key"}"
+
+def chunk1024 : List UInt8 → Nat → List (List UInt8)
+  | [], _ => []
+  | _, 0 => []
+  | l, fuel + 1 => l.take readBuf :: chunk1024 (l.drop readBuf) fuel
+
+/-- `create_subkeys` on a real file: the kernel hands out full buffers, then the rest, then 0 -/
+def subOfFile (b : List UInt8) : Option (List (String × List UInt8)) :=
+  let evs := (chunk1024 b (b.length + 1)).map fun c => ({ n := c.length, errno := 0, data := c } : Subkeys.ReadEv)
+  Subkeys.createSubkeys Toy.digest (evs ++ [{ n := 0, errno := 0, data := [] }])
+
+def parsePre (pre : String) : Option (Option Mungekey.File) :=
+  if pre == "none" then some none else
+  match pre.splitOn ":" with
+  | [m, h] => match parseOctal m, Hex.ofHex h with
+    | some m, some h => some (some { content := h, mode := m })
+    | _, _ => none
+  | _ => none
+
+def parseBitsArg (bits : String) : Option (Option Int) :=
+  if bits == "-" then some none else bits.toInt?.map some
+
+def step (st : St) (args : List String) : St × String :=
+  (st, match args with
+  | ["toy", md, salt, ikm, info, l] =>
+    match md.toNat?, optHex salt, Hex.ofHex ikm, optHex info, l.toNat? with
+    | some md, some salt, some ikm, some info, some l => doToy md salt ikm (info.getD []) l
+    | _, _, _, _, _ => "bad-op"
+  | ["bits", b] =>
+    if b == "-" then doBits none else match b.toInt? with
+    | some l => doBits (some l)
+    | none => "bad-op"
+  | ["mk", force, umask, pre, bits, seed, salt, "toy"] =>
+    match parseOctal umask, parsePre pre, parseBitsArg bits, seed.toNat?, Hex.ofHex salt with
+    | some u, some pre, some bits, some seed, some salt => doMk false (force == "1") u pre bits seed salt
+    | _, _, _, _, _ => "bad-op"
+  | ["bin", force, umask, pre, bits] =>
+    match parseOctal umask, parsePre pre, parseBitsArg bits with
+    | some u, some pre, some bits => doMk true (force == "1") u pre bits 0 [0, 0, 0, 0]
+    | _, _, _ => "bad-op"
+  | ["sub", script, "toy"] =>
+    match (if script == "-" then some [] else (script.splitOn ",").mapM parseEv) with
+    | some evs => showSub "" (Subkeys.createSubkeys Toy.digest evs)
+    | none => "bad-op"
+  | ["subf", h, "toy"] =>
+    match Hex.ofHex h with
+    | some b => showSub "" (subOfFile b)
+    | none => "bad-op"
+  | ["subpair", h, off, x, "toy"] =>
+    match Hex.ofHex h, off.toNat?, x.toNat? with
+    | some b, some off, some x =>
+      if off < b.length then
+        let b' := b.set off (b.getD off 0 ^^^ UInt8.ofNat x)
+        showSub "a:" (subOfFile b) ++ " " ++ showSub "b:" (subOfFile b')
+      else "bad-op"
+    | _, _, _ => "bad-op"
+  | _ => "bad-op")
 
 end Driver.Hkdf
